@@ -18,7 +18,7 @@ CONSTANTS
   IwsVals = {0, 1, 2}
   MaxcVals = {0, 1, 2}
   ReqEos = {FALSE, TRUE}
-  Allow = {"shared_slot", "reset_after_end", "push_after_recv_drop"}
+  Allow = {"shared_slot", "reset_after_end", "push_after_recv_drop", "cancel_pending_open"}
   ExportLen = 40
 ACTION_CONSTRAINT Drained
 ACTION_CONSTRAINT LateEnd
